@@ -205,6 +205,72 @@ def op_c07_listing(job):
         w.close()
 
 
+def op_c07_history(job):
+    """A history in ONE process: list the directory, edit metadata (add / change / remove .cap files,
+    link files, sidecars, children) WITHOUT letting the clock advance — every touched file and its
+    parent directories get their old whole-second mtime back — and list again.  Nothing is reset
+    between the two listings.  Returns, per handler kind, the world description and the outcome of
+    prepare() before and after, and the Gopher menu the server sends after the edit."""
+    T = 1_700_000_000
+    cfg = dict(job.get("config") or {})
+    out = {"runs": {}}
+    for kind in job["kinds"]:
+        over = {k: dict(v) for k, v in cfg.items()}
+        if kind == "dir":
+            over.setdefault("handlers.HandlerMultiplexer", {})["handlers"] = DIR_HANDLERS
+        w = DRV.World({"tree": job["tree"], "config": over})
+        try:
+            dirsel = job["dir"]
+
+            def settimes():
+                for root, dirs, files in os.walk(w.root):
+                    for n in dirs + files:
+                        try:
+                            os.utime(os.path.join(root, n), (T, T), follow_symlinks=False)
+                        except OSError:
+                            pass
+                os.utime(w.root, (T, T))
+
+            def listing():
+                world = describe_world(w.config, w.root, dirsel)
+                names = [c["name"] for c in world["children"]]
+                r = run_prepare(w.config, dirsel, kind, sorted(names))
+                m = with_alarm(5, lambda: DRV.serve_once(w.config, dirsel.encode("utf-8", "surrogateescape") + b"\r\n"))
+                base = "" if dirsel == "/" else dirsel
+                cf = fs_path(w.config, base + "/" + w.config.get("handlers.dir.DirHandler", "cachefile"))
+                if os.path.exists(cf):
+                    os.unlink(cf)
+                idx = [names.index(n) for n in sorted(names)]
+                return {"world": world, "groups": [{"result": r, "perms": [idx]}], "menu": m["out"], "exc": m["exc"],
+                        "ignorepatt": w.config.get("handlers.dir.DirHandler", "ignorepatt"),
+                        "extstrip": w.config.get("handlers.UMN.UMNDirHandler", "extstrip")}
+            settimes()
+            steps = [listing()]
+            for edits in job["edits"]:
+                for e in edits:
+                    p = os.path.join(os.fsencode(w.root), DRV.s2b(e["path"]).lstrip(b"/"))
+                    if e["op"] == "write":
+                        os.makedirs(os.path.dirname(p), exist_ok=True)
+                        with open(p, "wb") as f:
+                            f.write(DRV.s2b(e.get("data", "")))
+                    elif e["op"] == "remove":
+                        if os.path.isdir(p):
+                            import shutil
+                            shutil.rmtree(p)
+                        else:
+                            os.unlink(p)
+                    elif e["op"] == "rename":
+                        os.rename(p, os.path.join(os.fsencode(w.root), DRV.s2b(e["to"]).lstrip(b"/")))
+                    elif e["op"] == "mkdir":
+                        os.makedirs(p, exist_ok=True)
+                settimes()          # the clock has not advanced: same whole second as before
+                steps.append(listing())
+            out["runs"][kind] = steps
+        finally:
+            w.close()
+    return out
+
+
 def op_c07_entrycmp(job):
     """Real UMNDirHandler.entrycmp on all pairs of a pool; real list.sort with
     cmp_to_key(entrycmp) on given arrangements of the pool."""
@@ -269,7 +335,15 @@ def op_c07_search(job):
                 how = "unavailable"
             row.append(r)
         out.append(row)
-    return {"shipped": config.get("handlers.dir.DirHandler", "ignorepatt"), "results": out, "how": how}
+    import configparser
+    local = None
+    try:
+        cp = configparser.ConfigParser()
+        cp.read(os.path.join(DRV.REPO, "conf", "local.conf"))
+        local = cp.get("handlers.dir.DirHandler", "ignorepatt")
+    except Exception:  # noqa
+        pass
+    return {"shipped": config.get("handlers.dir.DirHandler", "ignorepatt"), "local": local, "results": out, "how": how}
 
 
 def register(OPS, drv):
@@ -278,3 +352,4 @@ def register(OPS, drv):
     OPS["c07_listing"] = op_c07_listing
     OPS["c07_entrycmp"] = op_c07_entrycmp
     OPS["c07_search"] = op_c07_search
+    OPS["c07_history"] = op_c07_history
